@@ -5,7 +5,8 @@
      MS 7 fields    -> hex32                 (marshal_session)
      MD 14 fields   -> hex32                 (marshal_data)
      US hex         -> OK 7 fields | ERR     (unmarshal_session, clock-independent part)
-     UD hex         -> OK 14 fields | ERR    (unmarshal_data) *)
+     UD hex         -> OK 14 fields | ERR    (unmarshal_data)
+     RK s1 .. sn    -> reply key (salt) after each authentic segment (sess_input) *)
 open Model
 open Common
 
@@ -39,4 +40,11 @@ let () =
        | Some m -> Printf.printf "OK %s %s %s %s %s %s %s %s %s %s %s %s %s %s\n" (d m.d_proto) (d m.d_ts) (d m.d_sid)
                      (d m.d_seq) (d m.d_unack) (d m.d_win) (d m.d_frag) (d m.d_prefix) (d m.d_plen) (d m.d_slen)
                      (d m.d_mode) (d m.d_mask) (d m.d_elen) (d m.d_rot))
+    | "RK" :: salts ->
+      (* the reply key after each authentic segment: sess_run over every prefix *)
+      let rec go st acc = function
+        | [] -> List.rev acc
+        | k :: t -> let st' = sess_input st k in
+                    go st' ((match st' with Some x -> d x | None -> "NONE") :: acc) t in
+      print_endline (String.concat " " (go None [] (List.map n salts)))
     | _ -> print_endline "?")
